@@ -128,8 +128,11 @@ fn gen_rows(r: &mut Rng, lo: i64, hi: i64) -> String {
 
 fn gen_case(r: &mut Rng, i: usize) -> Case {
     // disk cases are slower (fresh directory per fault): one in five
-    let engine = if i % 5 == 4 { "disk" } else { "mem" };
-    NULLS.store(engine == "mem", std::sync::atomic::Ordering::Relaxed);
+    // 3/5 memory, 1/5 disk with several row-sets per table (scan order not reproducible: class
+    // only), 1/5 disk with ONE row-set per table (deterministic: full comparison)
+    let engine = if i % 5 >= 3 { "disk" } else { "mem" };
+    let single = i % 5 == 3;
+    NULLS.store(engine == "mem" || single, std::sync::atomic::Ordering::Relaxed);
     // (on disk a primary key makes the planner pick merge join / sort aggregation over scans
     // whose row-set order is not reproducible: keep disk tables key-less)
     let pk = engine == "mem" && r.chance(1, 3);
@@ -147,7 +150,7 @@ fn gen_case(r: &mut Rng, i: usize) -> Case {
     } else {
         "create table u(x int, y int)".to_string()
     };
-    let nt = r.range(1, 4);
+    let nt = if single { 1 } else { r.range(1, 4) };
     let mut next_key = 0;
     for _ in 0..nt {
         if pk {
@@ -162,11 +165,11 @@ fn gen_case(r: &mut Rng, i: usize) -> Case {
                 .join(",");
             setup.push(format!("insert into t values {rows}"));
         } else {
-            setup.push(format!("insert into t values {}", gen_rows(r, 1, 4)));
+            setup.push(format!("insert into t values {}", if single { gen_rows(r, 3, 7) } else { gen_rows(r, 1, 4) }));
         }
     }
     let mut next_ukey = 0;
-    for _ in 0..r.range(1, 3) {
+    for _ in 0..(if single { 1 } else { r.range(1, 3) }) {
         if upk {
             let n = r.range(1, 3);
             let rows = (0..n)
@@ -437,7 +440,11 @@ fn total_rows(t: &[Vec<Vec<String>>]) -> i64 {
 
 fn run_case(ctx: &mut Ctx, cid: usize, case: &Case, thorough: bool, out: &mut Vec<serde_json::Value>) {
     use serde_json::json;
-    let base = json!({"case": cid, "engine": case.engine, "stmt": case.stmt, "setup": case.setup});
+    // deterministic scan order: memory engine, or on disk at most one row-set per table
+    let det = case.engine == "mem"
+        || (case.setup.iter().filter(|s| s.starts_with("insert into t")).count() <= 1
+            && case.setup.iter().filter(|s| s.starts_with("insert into u")).count() <= 1);
+    let base = json!({"case": cid, "engine": case.engine, "stmt": case.stmt, "setup": case.setup, "det": det});
     let mut rec = |extra: serde_json::Value| {
         let mut o = base.clone();
         for (k, v) in extra.as_object().unwrap() {
@@ -551,6 +558,7 @@ fn run_case(ctx: &mut Ctx, cid: usize, case: &Case, thorough: bool, out: &mut Ve
             "k": f.k, "kind": f.kind, "fired": fr.trace.fired, "root": f.node == nodes.len() - 1, "dml": is_dml,
             "model_req": model_request(&nodes, &Some(f.clone())),
             "class": class, "nrows": rows.len(), "rows_eq": class == "ok" && bag_eq(&rows, &nf_rows),
+            "rows_prefix": class == "ok" && rows.len() <= nf_rows.len() && rows[..] == nf_rows[..rows.len()],
             "count_value": count_value, "panics": fr.panics,
             "err_text": match &fr.outcome { Outcome::Err(e) => e.clone(), Outcome::Panic(e) => e.clone(), _ => String::new() },
             "tables_eq_pre": fr.tables == pre2, "tables_eq_post": fr.tables == nf.tables,
